@@ -40,4 +40,6 @@ def run(rep: Report, repo: Repo, tier: str) -> None:
     with rep.isolated():
         protocol.rule_rejections(rep, repo, "C05-R11")
     with rep.isolated():
+        protocol.rule_file_level_commands(rep, repo, "C05-R13")
+    with rep.isolated():
         protocol.rule_accepted_arities(rep, repo, "C05-R12")
